@@ -87,7 +87,16 @@ func Harness_day_item_long_names() {
 	db := shared.NewDBNodeMap()
 	raw := shared.NewElements()
 	qa, qb := verifFloat("qty"), verifFloat("qty")
-	if verifChoose("in-book", 2) == 1 {
+	switch verifChoose("in-book", 3) {
+	case 2: // the long names are recipes of the book
+		ea, eb := shared.NewElements(), shared.NewElements()
+		ea.Add("x", verifFloat("amt"))
+		eb.Add("y", verifFloat("amt"))
+		db.Push(&shared.DBNode{Header: la, Elements: ea})
+		db.Push(&shared.DBNode{Header: lb, Elements: eb})
+		raw.Add(la, qa)
+		raw.Add(lb, qb)
+	case 1:
 		ea, eb := shared.NewElements(), shared.NewElements()
 		ea.Add(la, verifFloat("amt"))
 		eb.Add(lb, verifFloat("amt"))
@@ -95,7 +104,7 @@ func Harness_day_item_long_names() {
 		db.Push(&shared.DBNode{Header: "food/two", Elements: eb})
 		raw.Add("food/one", qa)
 		raw.Add("food/two", qb)
-	} else {
+	default:
 		raw.Add(la, qa)
 		raw.Add(lb, qb)
 	}
@@ -114,4 +123,16 @@ func Harness_day_item_long_names() {
 		}
 	}
 	verifAssert("shorten-keeps-food-rows", plain.Elements != nil && short.Elements != nil && len(*plain.Elements) == len(*short.Elements))
+	if plain.Elements != nil && short.Elements != nil && len(*plain.Elements) == len(*short.Elements) {
+		for i := range *plain.Elements {
+			a, b := (*plain.Elements)[i], (*short.Elements)[i]
+			verifAssert("shorten-keeps-food-numbers", verifSameFloat(a.Value, b.Value))
+			verifAssert("shorten-keeps-ingredient-rows", len(a.Ingredients) == len(b.Ingredients))
+			if len(a.Ingredients) == len(b.Ingredients) {
+				for j := range a.Ingredients {
+					verifAssert("shorten-keeps-ingredient-numbers", verifSameFloat(a.Ingredients[j].Value, b.Ingredients[j].Value))
+				}
+			}
+		}
+	}
 }
